@@ -83,6 +83,8 @@ func init() {
 			"GJS.Props.C11.anyBranch_iff", "GJS.Props.C11.anyOf_validator_rejects_iff", "GJS.Props.C11.merge_required",
 			"GJS.Props.C11.mergeEntry_keys", "GJS.Props.C11.mergeKvs_keys", "GJS.Props.C11.mergeKvs_disjoint_lookup",
 			"GJS.Props.C11.KF_allOf_overlap_first_wins",
+			"GJS.Props.C11.mergeKvs_disjoint", "GJS.Props.C11.validProps_append", "GJS.Props.C11.merge_plainObj", "GJS.Props.C11.merge_valid_conj",
+			"GJS.Props.C11.fold_valid_conj", "GJS.Props.C11.allOf_is_conjunction",
 		})
 		var pcs []*core.PCase
 		type meta struct {
